@@ -25,7 +25,7 @@ VALS = {
     '1.5': 1.5, '0.0': 0.0, '1.0': 1.0, 'None': None, "b'x'": b'x', "b''": b'', '1j': 1j, 'E.A': U.E.A, 'E.B': U.E.B,
     'IE.X': U.IE.X, 'IE.Y': U.IE.Y, '...': ...,
 }
-NEW = {'K': U.K, 'K2': U.K2, 'Other': U.Other, 'PImpl': U.PImpl, 'G': U.G, 'object': object}
+NEW = {'DupA': U.DupA, 'DupB': U.DupB, 'K': U.K, 'K2': U.K2, 'Other': U.Other, 'PImpl': U.PImpl, 'G': U.G, 'object': object}
 CLS = {'int': int, 'bool': bool, 'str': str, 'float': float, 'bytes': bytes, 'K': U.K, 'K2': U.K2, 'Other': U.Other,
        'object': object, 'type': type, 'E': U.E, 'complex': complex, 'list': list}
 
@@ -61,9 +61,122 @@ M_SRC = {
 }
 
 
+def _rec(kind):
+    """Self-referential containers."""
+    if kind == 'list-self':
+        l = [1, 'a']
+        l.append(l)
+        return l
+    if kind == 'list-only-self':
+        l = []
+        l.append(l)
+        return l
+    if kind == 'dict-self':
+        d = {'k': 1}
+        d['me'] = d
+        return d
+    if kind == 'mutual-lists':
+        a, b = [1], ['a']
+        a.append(b)
+        b.append(a)
+        return a
+    if kind == 'list-dict-cycle':
+        l = [1]
+        d = {'l': l}
+        l.append(d)
+        return l
+    if kind == 'deque-self':
+        q = collections.deque([1])
+        q.append(q)
+        return q
+    if kind == 'tuple-list-cycle':
+        l = []
+        t = (1, l)
+        l.append(t)
+        return t
+    if kind == 'USeq-self':
+        s = U.USeq([1])
+        s._d.append(s)
+        return s
+    if kind == 'UMSeq-self':
+        s = U.UMSeq(['a'])
+        s._d.append(s)
+        return s
+    if kind == 'UMap-self':
+        m = U.UMap([('k', 1)])
+        m._d['me'] = m
+        return m
+    if kind == 'UColl-self':
+        c = U.UColl([1])
+        c._d.append(c)
+        return c
+    if kind == 'USeq-in-list-cycle':
+        l = [1]
+        s = U.USeq([l])
+        l.append(s)
+        return l
+    if kind == 'UserList-self':
+        ul = collections.UserList([1])
+        ul.append(ul)
+        return ul
+    if kind == 'UserDict-self':
+        ud = collections.UserDict({'k': 1})
+        ud['me'] = ud
+        return ud
+    if kind == 'defaultdict-self':
+        dd = collections.defaultdict(list)
+        dd['me'] = dd
+        return dd
+    if kind == 'OrderedDict-self':
+        od = collections.OrderedDict()
+        od['me'] = od
+        return od
+    raise ValueError(kind)
+
+
+REC_KINDS = ['list-self', 'list-only-self', 'dict-self', 'mutual-lists', 'list-dict-cycle', 'deque-self', 'tuple-list-cycle',
+             'USeq-self', 'UMSeq-self', 'UMap-self', 'UColl-self', 'USeq-in-list-cycle', 'UserList-self', 'UserDict-self',
+             'defaultdict-self', 'OrderedDict-self']
+
+RAW = {
+    'range3': lambda: range(3), 'range0': lambda: range(0), 'bytearray': lambda: bytearray(b'ab'), 'lambda': lambda: (lambda: 0),
+    'builtin-len': lambda: len, 'object': lambda: object(), 'memoryview': lambda: memoryview(b'ab'), 'method': lambda: U.PImpl().meth,
+    'UserList': lambda: collections.UserList([1, 'a']), 'UserDict': lambda: collections.UserDict({'k': 1}),
+    'UserString': lambda: collections.UserString('ab'), 'str-long': lambda: 'abc', 'genexpr': lambda: (i for i in [1]),
+    'enumerate': lambda: enumerate([1]), 'zip': lambda: zip([1], [2]), 'map': lambda: map(str, [1]), 'slice': lambda: slice(1),
+    'ellipsis': lambda: ..., 'notimplemented': lambda: NotImplemented, 'module': lambda: collections, 'type': lambda: type,
+    'namedtuple': lambda: collections.namedtuple('NT', 'a b')(1, 'x'), 'exception': lambda: ValueError('x'),
+    'coroutine-fn': lambda: _acoro, 'asyncgen-fn': lambda: _agen, 'gen-fn': lambda: _gen, 'partial': lambda: __import__('functools').partial(len),
+    'array': lambda: __import__('array').array('i', [1, 2]), 'frozenset-nested': lambda: frozenset([frozenset([1]), frozenset(['a'])]),
+    'dict-keys-tuple': lambda: {(1, 'a'): [1]}, 'bool-key-dict': lambda: {True: 'x', 2: 'y'},
+}
+RAW_SRC = {
+    'range3': 'range(3)', 'range0': 'range(0)', 'bytearray': "bytearray(b'ab')", 'lambda': '(lambda: 0)', 'builtin-len': 'len',
+    'object': 'object()', 'memoryview': "memoryview(b'ab')", 'method': 'PImpl().meth', 'UserList': "collections.UserList([1, 'a'])",
+    'UserDict': "collections.UserDict({'k': 1})", 'UserString': "collections.UserString('ab')", 'str-long': "'abc'",
+    'genexpr': '(i for i in [1])', 'enumerate': 'enumerate([1])', 'zip': 'zip([1], [2])', 'map': 'map(str, [1])', 'slice': 'slice(1)',
+    'ellipsis': '...', 'notimplemented': 'NotImplemented', 'module': 'collections', 'type': 'type',
+    'namedtuple': "collections.namedtuple('NT', 'a b')(1, 'x')", 'exception': "ValueError('x')",
+    'frozenset-nested': "frozenset([frozenset([1]), frozenset(['a'])])", 'dict-keys-tuple': "{(1, 'a'): [1]}", 'bool-key-dict': "{True: 'x', 2: 'y'}",
+    'array': "__import__('array').array('i', [1, 2])", 'partial': "__import__('functools').partial(len)",
+}
+
+
+async def _acoro():
+    return 1
+
+
+async def _agen():
+    yield 1
+
+
 def mk(o):
     """Build a fresh object.  Raises TypeError for impossible combinations (unhashable set items)."""
     tag = o[0]
+    if tag == 'raw':
+        return RAW[o[1]]()
+    if tag == 'rec':
+        return _rec(o[1])
     if tag == 'v':
         return VALS[o[1]]
     if tag == 'new':
@@ -85,6 +198,10 @@ def mk(o):
 
 def osrc(o) -> str:
     tag = o[0]
+    if tag == 'raw':
+        return RAW_SRC.get(o[1], f'<{o[1]}>')
+    if tag == 'rec':
+        return f'__import__("bearmc.model.objs").model.objs._rec({o[1]!r})'
     if tag == 'v':
         return o[1]
     if tag == 'new':
@@ -138,6 +255,10 @@ ATOM_WIT = {
     'NL': [('c', 'list', ()), ('c', 'list', (V('1'), V('0')))],
     'TL': [('c', 'list', ()), ('c', 'list', (V('1'), V('0')))],
     'TU': [V('1'), V("'a'")],
+    'DupA': [NW('DupA')],
+    'DupB': [NW('DupB')],
+    'TSi': [V('1'), V('True')],
+    'TSs': [V("'a'")],
     'NF': [V('1.5'), V('0.0')],
     'TF': [V('1.5'), V('0.0')],
     'T': [V('1'), V("'a'"), NW('K')],
@@ -153,7 +274,7 @@ ATOM_WIT = {
 
 # Universal pool of root candidates used to find class-level violators.
 POOL = [V('1'), V('True'), V("'a'"), V('1.5'), V('None'), V("b'x'"), V('1j'), V('E.A'), NW('K'), NW('K2'), NW('Other'),
-        NW('PImpl'), NW('G'), ('cls', 'int'), ('cls', 'K'), ('fn', 'f'),
+        NW('PImpl'), NW('G'), NW('DupA'), NW('DupB'), ('cls', 'int'), ('cls', 'K'), ('fn', 'f'),
         ('c', 'list', ()), ('c', 'list', (V('1'),)), ('c', 'list', (V("'a'"),)), ('c', 'tuple', ()),
         ('c', 'tuple', (V('1'),)), ('c', 'tuple', (V("'a'"), V("'a'"))), ('c', 'set', (V('1'),)),
         ('c', 'frozenset', (V("'a'"),)), ('c', 'deque', (V('1'),)), ('m', 'dict', ()), ('m', 'dict', ((V('1'), V('1')),)),
@@ -341,6 +462,8 @@ class Gen:
             return out
         if tag == 'annm':
             return list(self.wit(t[1]))
+        if tag == 'call':
+            return [('fn', 'f'), ('cls', 'int'), ('cls', 'K')]
         if tag == 'g':
             if t[1] == 'GL':
                 ws = _spread(self.wit(t[2]), self.m)
@@ -473,6 +596,8 @@ class Gen:
             return list(self.wit(t[1])) + [V('1'), V('0'), V('2'), V("'a'"), V("''"), V('True'), NW('K')]
         if tag == 'annm':
             return list(self._bad_raw(t[1]))
+        if tag == 'call':
+            return []
         if tag == 'g':
             if t[1] == 'GL':
                 bs = self._bad_items(t[2], 3)
